@@ -61,19 +61,19 @@ Definition literal_ok (p : prog) (cc : callcase) (ls : list (list oalt)) : bool 
   | _ => true
   end.
 
-Definition call_holds (p : prog) (cc : callcase) : bool :=
+Definition call_holds (wt : bool) (p : prog) (cc : callcase) : bool :=
   match cc_obs cc with
   | OLists n ls same =>
       Nat.eqb n (length (cc_sig cc))
       && Nat.eqb (length ls) n
       && forallb (fun l => negb (is_nil l)) ls
-      && forallb (forallb (fun a => o_const a || o_asg a)) ls
+      && (negb wt || forallb (forallb (fun a => o_const a || o_asg a)) ls)   (* ill-typed programs: not asked *)
       && same
       && literal_ok p cc ls
   | _ => false
   end.
 
-Definition holds (c : case) : bool := forallb (call_holds (c_prog c)) (c_calls c).
+Definition holds (c : case) : bool := forallb (call_holds (c_wt c) (c_prog c)) (c_calls c).
 
 Definition mismatches (cs : list case) : list nat := bad_indices mismatch cs.
 Definition violations (cs : list case) : list nat := bad_indices (fun c => negb (holds c)) cs.
